@@ -345,7 +345,13 @@ def run_schedule_scenario(sc, out, before, u):
     action = sc["action"]           # 'exit' | 'update+exit'
     main = threading.main_thread()
     reached = threading.Event()
-    gate = threading.Event()
+
+    class Gate(threading.Event):
+        def set(self):
+            DEADLOCK["released"] = True
+            super().set()
+    gate = Gate()
+    DEADLOCK["released"] = False
     hits = {"n": 0}
 
     def on_line(c, ln):
@@ -360,6 +366,7 @@ def run_schedule_scenario(sc, out, before, u):
         hits["n"] += 1
         reached.set()
         gate.wait(3.0)
+        DEADLOCK["released"] = True
 
     mon.use_tool_id(tool, "vp-c19")
     mon.register_callback(tool, mon.events.LINE, on_line)
@@ -420,6 +427,72 @@ def run_schedule_scenario(sc, out, before, u):
     return res
 
 
+DEADLOCK = {"sc": None, "results": None, "path": None, "released": False}
+
+
+def start_deadlock_monitor(u):
+    """Structural observer for calls that never return: once the held thread
+    has been released by the harness, the main thread (inside a ProgressBar
+    method) and a library timer thread (inside a ProgressBar method) that
+    both sit at unchanged bytecode offsets for 6 s (300 virtual seconds)
+    wait for each other (e.g. exit() joining the timer thread while holding
+    the lock the callback needs). The scenario is reported with both stacks
+    and the worker ends - the caller can never come back."""
+    codes = {getattr(u.ProgressBar, n).__code__
+             for n in ("update", "_print_status", "exit", "enter")}
+    main = threading.main_thread()
+
+    def in_lib(frame):
+        f, inside = frame, False
+        while f is not None:
+            if f.f_code in codes:
+                inside = True
+            f = f.f_back
+        return inside
+
+    def loop():
+        last, same = None, 0
+        while True:
+            time.sleep(0.05)
+            if DEADLOCK["sc"] is None or not DEADLOCK["released"]:
+                last, same = None, 0
+                continue
+            frames = sys._current_frames()
+            mf = frames.get(main.ident)
+            if mf is None or not in_lib(mf):
+                last, same = None, 0
+                continue
+            others = []
+            for t in threading.enumerate():
+                if t is main or t.name.startswith("vp-harness"):
+                    continue
+                f = frames.get(t.ident)
+                if f is not None and in_lib(f):
+                    others.append((t.ident, f.f_code.co_name, f.f_lasti))
+            if not others:
+                last, same = None, 0
+                continue
+            sig = (mf.f_code.co_name, mf.f_lasti, tuple(sorted(others)))
+            if sig == last:
+                same += 1
+            else:
+                last, same = sig, 0
+            if same >= 120:
+                stacks = {}
+                for t in threading.enumerate():
+                    f = frames.get(t.ident)
+                    if f is not None:
+                        stacks[t.name] = "".join(
+                            traceback.format_stack(f)[-6:])[-900:]
+                DEADLOCK["results"].append({
+                    "id": DEADLOCK["sc"], "deadlock": True, "reached": True,
+                    "stacks": stacks})
+                json.dump(DEADLOCK["results"], open(DEADLOCK["path"], "w"))
+                os._exit(4)
+    threading.Thread(target=loop, daemon=True,
+                     name="vp-harness-deadlock").start()
+
+
 def lines_of(u):
     out = {}
     for name in ("update", "_print_status", "exit", "enter"):
@@ -437,11 +510,15 @@ def main():
     if scenarios and scenarios[0].get("kind") == "list-lines":
         json.dump(lines_of(u), open(sys.argv[2], "w"))
         return
+    start_deadlock_monitor(u)
     before = {t.ident for t in threading.enumerate()}
     exit_check = False
+    DEADLOCK["results"], DEADLOCK["path"] = results, sys.argv[2]
     for sc in scenarios:
         out = Out()
         sys.stdout = out
+        DEADLOCK["released"] = False
+        DEADLOCK["sc"] = sc["id"] if sc["kind"] == "schedule" else None
         try:
             if sc["kind"] == "fault":
                 r = run_fault_scenario(sc, out, before)
@@ -451,6 +528,7 @@ def main():
             r = {"id": sc["id"], "harness_error": traceback.format_exc()[-1500:]}
         finally:
             sys.stdout = real_stdout
+            DEADLOCK["sc"] = None
         results.append(r)
         json.dump(results, open(sys.argv[2], "w"))
         if sc.get("exit_check"):
